@@ -61,7 +61,9 @@ func nameSection(modName string, fn map[uint32]string, order []uint32) []byte {
 // builtModules returns the fixed wenc-built part of the module set.
 func builtModules() []modSpec {
 	var out []modSpec
-	add := func(name string, m *wenc.Module) { out = append(out, modSpec{Name: name, Wasm: m.Encode(), Kind: "wenc"}) }
+	add := func(name string, m *wenc.Module) {
+		out = append(out, modSpec{Name: name, Wasm: m.Encode(), Kind: "wenc"})
+	}
 
 	// 1. completely empty module
 	add("empty", &wenc.Module{})
@@ -353,7 +355,7 @@ func builtModules() []modSpec {
 		c.LocalGet(0)
 		for i := 0; i < n; i++ {
 			if i%3 == 2 {
-				c.LocalGet(uint32(1 + i)).Prefixed(0xfc, 6).Op(0x7c)
+				c.LocalGet(uint32(1+i)).Prefixed(0xfc, 6).Op(0x7c)
 			} else {
 				c.LocalGet(uint32(1 + i)).Op(0x85)
 			}
@@ -487,7 +489,7 @@ func genModule(r *core.Rng, nfuncs int) []byte {
 				c.I32Const(int32(r.Intn(1000) * 8))
 				expr(c, i32, depth-1, self)
 				c.Mem(0x36, 2, 0)
-				c.I32Const(int32(r.Intn(1000) * 8)).Mem(0x28, 2, 0)
+				c.I32Const(int32(r.Intn(1000)*8)).Mem(0x28, 2, 0)
 			case 3: // if/else
 				expr(c, i32, depth-1, self)
 				c.If(i32)
